@@ -71,6 +71,7 @@ structure Opts where
   ignoreRequired : Bool := false
   ignoreDeleteNonexistent : Bool := false
   addition : Addition := .ignore
+  override : Bool := false            -- options.py:101: these options take over in nested data classes
   deriving Repr, DecidableEq
 
 structure Cls where
@@ -441,6 +442,33 @@ def setattrVia (mro : List (List Accessor)) (C : Cls) (W : World V) (s : State V
   match resolveAccessor mro a with
   | some x => fieldSetter C W s x.field v
   | none => setattr C W s a v
+
+/-! ### which options an instance carries
+
+An instance is built directly (`K(**data)`: no enclosing context) or as the value of a field of another data
+class (at its construction or by a later assignment through the parent's setter / update): then
+`transform_dataclass` (cls.py) calls `init_dataclass(cls, data, context=…)` with the enclosing context, and
+`Options.make_context` (options.py:251-258) picks the options of the new context: the class's own, unless the
+enclosing options say `override` and the own do not (documented: "otherwise the data class parses with its own
+Options").  `Schema.__post_init__` keeps them as `self.__options__` (schema.py:271). -/
+
+/-- `Options.make_context`, options.py:251-258 -/
+def contextOptions (own : Opts) (enclosing : Option Opts) : Opts :=
+  match enclosing with
+  | none => own
+  | some c => if !own.override && c.override then c else own
+
+/-- what the mutators of a Schema instance consult: `self.__options__` for immutable / ignore_required /
+ignore_delete_nonexistent (schema.py:317, 374, 386, 391, 413, 423, 448, 501), the class parser's own options
+for additions (`self.__parser__.make_context`, schema.py:323, 363) -/
+def instanceOpts (own : Opts) (enclosing : Option Opts) : Opts :=
+  { contextOptions own enclosing with addition := own.addition }
+
+/-- the declaration a (possibly nested) Schema instance is governed by -/
+def instanceCls (C : Cls) (enclosing : Option Opts) : Cls := { C with opts := instanceOpts C.opts enclosing }
+
+/-- a DataClass accessor closes over its class parser's options (cls.py:261, 278): nesting changes nothing -/
+def dcInstanceCls (C : Cls) (_enclosing : Option Opts) : Cls := C
 
 /-- the table the model above rests on: which `dict` mutators `Schema` defines itself (T1 table,
 re-read from the source with `ast` on every run by harness/c07.py `extra_static`) -/
